@@ -143,26 +143,36 @@ namespace Zrnt.SSZ
 /-! ### leaf types: the Go value *is* its encoding (byte arrays, byte slices, bitfields kept as raw bytes,
 integers as their little-endian bytes) -/
 
-/-- the five methods of a leaf type as functions of the raw representation -/
-structure LeafImpl where
+/-- the four encoding methods (`Serialize`, `Deserialize`, `ByteLength`, `FixedLength`) over values: the part of a Go
+type property C04 speaks about; the fifth method, `HashTreeRoot`, is a separate function (property C05) -/
+structure Codec where
+  ser : Val → Bytes
+  des : Bytes → Option Val
+  blen : Val → Nat
+  flen : Nat
+
+/-- the four encoding methods of a leaf type as functions of the raw representation -/
+structure LeafCodec where
   des : Bytes → Option Bytes
   ser : Bytes → Bytes
   blen : Bytes → Nat
   flen : Nat
-  root : Bytes → Chunk
 
-/-- the leaf implementation computes the specification's functions at `t` (through the encoding of the value) -/
-def LeafImpl.Meets (H : Hash2) (t : Ty) (L : LeafImpl) : Prop :=
+/-- the leaf codec computes the specification's encoding functions at `t` (through the encoding of the value) -/
+def LeafCodec.Meets (t : Ty) (L : LeafCodec) : Prop :=
   (∀ bs, L.des bs = (decode t bs).map (encode t)) ∧ L.flen = t.fixedLen ∧
-  ∀ v, WF t v → L.ser (encode t v) = encode t v ∧ L.blen (encode t v) = byteLength t v ∧ L.root (encode t v) = htr H t v
+  ∀ v, WF t v → L.ser (encode t v) = encode t v ∧ L.blen (encode t v) = byteLength t v
 
-/-- the `Impl` over values a leaf implementation induces (decode into the raw form, act, read back) -/
-def LeafImpl.lift (t : Ty) (L : LeafImpl) : Impl :=
+/-- a root function over the raw representation computes the specification's `hash_tree_root` at `t` -/
+def LeafRootMeets (H : Hash2) (t : Ty) (r : Bytes → Chunk) : Prop :=
+  ∀ v, WF t v → r (encode t v) = htr H t v
+
+/-- the `Codec` over values a leaf codec induces (decode into the raw form, act, read back) -/
+def LeafCodec.lift (t : Ty) (L : LeafCodec) : Codec :=
   { ser := fun v => L.ser (encode t v)
     des := fun bs => (L.des bs).bind (decode t)
     blen := fun v => L.blen (encode t v)
-    flen := L.flen
-    root := fun v => L.root (encode t v) }
+    flen := L.flen }
 
 /-- `dr.Read(p[:])` into an `n`-byte array / `UintNView.Deserialize`: exactly `n` bytes -/
 def goReadExact (n : Nat) (bs : Bytes) : Option Bytes := if bs.length = n then some bs else none
